@@ -646,7 +646,7 @@ def _tabled1(ctx):
                 endt_all.at(last[-1][2].node)
                 tail = last[-1][1][:-4]
                 rest = last[:-1] + ([("lit", tail, last[-1][2])] if tail else [])
-            elif any(t_[0] in ("opaque", "str") for t_ in last):
+            elif any(t_[0] in ("opaque", "str") for t_ in last) or (last and last[-1][0] != "lit"):
                 endt_all.unknown("last line: " + _show_line(last))
                 rest = None
             else:
@@ -664,8 +664,11 @@ def _tabled1(ctx):
             elif rest and rest[0][0] in ("opaque", "str"):
                 lasthead.unknown(_show_line(rest))
                 continue
+            elif not rest:
+                lasthead.bad("the last line has no head: only ENDT")
             else:
-                lasthead.bad("the last line has no literal head: " + _show_line(rest))
+                lasthead.unknown("the last line does not start with literal text: " + _show_line(rest))
+                continue
             # the leftover pairs
             if len(rest) > 1 or (rest and rest[0][0] != "each"):
                 loop.unknown(_show_line(rest))
@@ -693,10 +696,13 @@ def _tabled1(ctx):
             bases, lo_, hi_ = ps
             if bases != (("sym", "t"), ("sym", "d")):
                 (loop.bad if set(bases) <= {("sym", "t"), ("sym", "d")} else loop.unknown)({"rendered": [show(b_) for b_ in bases]})
-            if hi_ != N:
-                loop.bad({"the loop ends at": show(hi_), "number of points": show(N)})
-            if u is not None and lo_ != u:
-                loop.bad({"the loop starts at": show(lo_), "the vectorised write stops at": show(u)})
+            r_, w_ = _differs(hi_ - N, s.facts)
+            if r_ is not False:
+                (loop.bad if r_ else loop.unknown)({"the loop ends at": show(hi_), "number of points": show(N), "differ for": w_})
+            if u is not None:
+                r_, w_ = _differs(lo_ - u, s.facts)
+                if r_ is not False:
+                    (loop.bad if r_ else loop.unknown)({"the loop starts at": show(lo_), "the vectorised write stops at": show(u), "differ for": w_})
             # leftover count: npts - (start of the loop) in 0..per-1
             lft = N - lo_
             facts = tuple(f for f in s.facts)
@@ -1182,9 +1188,12 @@ def _dmig(ctx):
     stores = [e for e in Er.events("store") if isinstance(e.d["index"], tuple) and e.d["index"][:1] == ("tuple",) and len(e.d["index"][1]) == 2 and len(e.loops) >= 2]
 
     def form6(facts):
+        """some integer quantity the facts speak about can only be 6"""
         for t, pol in facts:
-            if isinstance(t, tuple) and t[:2] == ("cmp", "Eq") and Lin(c=6) in t[2:] and pol:
-                return True
+            for at in M.free_symbols(t):
+                ok_, cand = M.possible_values(at, facts, extra=(6,), lo=0)
+                if ok_ == {6}:
+                    return True
         return False
     swapped = lambda e, p_: p_.d["index"][1] == e.d["index"][1][::-1] and p_.loops == e.loops and p_.d["base"] == e.d["base"]
     same = lambda e, p_: p_.d["value"] == e.d["value"] or e.d["value"] == ("elem", p_.d["base"], p_.d["index"])
@@ -1193,7 +1202,7 @@ def _dmig(ctx):
     v = V()
     if not prim or not mir:
         v.unknown({"stores": [(show(e.d["index"]), show(e.d["value"])) for e in stores][:6]})
-    forms = {x for e in mir for t, pol in e.facts if pol and isinstance(t, tuple) and t[:2] == ("cmp", "Eq") and Lin(c=6) in t[2:] for x in t[2:] if x != Lin(c=6)}
+    forms = {lin(at) for e in mir for t, pol in e.facts for at in M.free_symbols(t) if M.possible_values(at, e.facts, extra=(6,), lo=0)[0] == {6}}
     for e in mir:
         v.at(e.node)
         ps = [p_ for p_ in prim if swapped(e, p_) and p_.seq < e.seq and set(p_.facts) <= set(e.facts)]
@@ -1262,42 +1271,48 @@ def _dmig(ctx):
             else:
                 v.unknown("no test of the matrix against its transpose dominates `form = 6`")
         v.report(ctx, inst, wd)
-    # wtdmig: start row of the lower triangle
+    # wtdmig: rows written per column: col..n-1 for form 6 (one of each (i,j)/(j,i) pair), 0..n-1 otherwise - decided on what the tests passed on
+    # the way to the write of a term say about the row, so a start index, a `continue` or a condition are the same thing
     fors = [e for e in E.events("for")]
-    rows = [e for e in fors if len(e.loops) >= 3 and isinstance(e.d["iter"], tuple) and e.d["iter"][:1] == ("range",)]
+    terms = [e for e in E.events("call") if is_write(e) and len(e.loops) >= 3 and isinstance(e.d["args"][0], S)]
     v = V()
     seen6 = seen_other = False
-    for e in rows:
+    for e in terms:
         v.at(e.node)
+        inner = [f for f in fors if f.d["loop"] == e.loops[-1]]
         outer = [f for f in fors if f.d["loop"] == e.loops[-2]]
-        col = outer[0].d["target"] if outer else None
-        it = e.d["iter"]
+        if not inner or not outer or not all(isinstance(f.d["iter"], tuple) and f.d["iter"][:1] == ("range",) and isinstance(f.d["target"], Lin) for f in (inner[0], outer[0])):
+            v.unknown({"loops around the term": [show(f.d["iter"]) for f in inner + outer]})
+            continue
+        row, col = inner[0].d["target"], outer[0].d["target"]
         formv = None
         for a_ in reversed([x for x in E.events("assign") if x.d["name"] == fname and x.seq < e.seq and set(x.facts) <= set(e.facts)]):
             formv = a_.d["value"]
             break
-        if not M.is_int_const(formv) or not outer or not (isinstance(outer[0].d["iter"], tuple) and outer[0].d["iter"][:1] == ("range",)):
-            v.unknown({"form": show(formv), "rows": show(it)})
+        if not M.is_int_const(formv):
+            v.unknown({"form": show(formv)})
             continue
         at = the_atom(outer[0].d["iter"][2])
         mat = at[1] if isinstance(at, tuple) and at[0] == "dim" and at[2] == 1 else None
-        if mat is None or outer[0].d["iter"][1] != Lin() or it[3] != Lin(c=1):
-            v.unknown({"columns": show(outer[0].d["iter"]), "rows": show(it)})
+        if mat is None or outer[0].d["iter"][1] != Lin() or outer[0].d["iter"][3] != Lin(c=1) or inner[0].d["iter"][3] != Lin(c=1):
+            v.unknown({"columns": show(outer[0].d["iter"]), "rows": show(inner[0].d["iter"])})
             continue
-        want = col if formv == Lin(c=6) else Lin()
-        seen6 = seen6 or formv == Lin(c=6)
-        seen_other = seen_other or formv != Lin(c=6)
-        if it[1] != want or it[2] != lin(("len", mat)):
-            d_ = lin(it[1]) - lin(want)
-            if (it[1] != want and (d_.is_const() or isinstance(col, Lin))) or (it[2] - lin(("len", mat))).is_const():
-                v.bad({"form": show(formv), "rows written": show(it), "column": show(col)})
+        six = formv == Lin(c=6)
+        seen6, seen_other = seen6 or six, seen_other or not six
+        first = (row - col) if six else row          # must be able to be 0
+        lo, _ = M.bounds(first, e.facts)
+        if lo is not None and lo >= 1:
+            v.bad({"form": show(formv), "rows written": f"from {'col' if six else '0'} + {lo} on", "loop": show(inner[0].d["iter"])})
+        d_ = inner[0].d["iter"][2] - lin(("len", mat))
+        if d_ != Lin():
+            if d_.is_const() and d_.c < 0:
+                v.bad({"form": show(formv), "the row loop stops at": show(inner[0].d["iter"][2])})
             else:
-                v.unknown({"form": show(formv), "rows written": show(it), "column": show(col)})
+                v.unknown({"the row loop stops at": show(inner[0].d["iter"][2])})
     if v.v is True and not (seen6 and seen_other):
-        v.unknown("row loops of the symmetric and of the general form")
+        v.unknown("terms written for the symmetric and for the general form")
     v.report(ctx, "wtdmig: form 6 writes rows col..n-1 of each column (one of each (i,j)/(j,i) pair)", wd)
     # D exponent for the double-precision types
-    terms = [e for e in E.events("call") if is_write(e) and len(e.loops) >= 3 and isinstance(e.d["args"][0], S)]
     v = V()
     kinds = set()
     for e in terms:
@@ -1663,6 +1678,14 @@ def _tiling(ctx, E, q, seq, fn):
         if s.status not in ("run", "return"):
             continue
         npaths += 1
+        # every write that touches the sequence must be understood, otherwise nothing is concluded for this path
+        rendered = [e.d["value"] for e in s.events if e.kind == "format" and _int_records(E, e, seq, N) is not None]
+        strange = [e for e in s.events if e.kind == "call" and e.d["attr"] in ("write", "writelines") and e.d["args"]
+                   and M.mentions(e.d["args"][0], seq) and _int_records(E, e, seq, N) is None
+                   and not any(e.d["args"][0] == r_ or (isinstance(e.d["args"][0], S) and isinstance(r_, S) and set(r_.p) <= set(e.d["args"][0].p)) for r_ in rendered)]
+        if strange:
+            v.unknown({"a write of the sequence this rule does not understand": show(strange[0].d["args"][0])[:200]}, strange[0].node)
+            continue
         wp = Lin()          # written up to (exclusive)
         loop_entry = {}
         for_loops = {}
